@@ -44,6 +44,8 @@ class Models:
         models_sched.register(self)
         from . import models_user
         models_user.register(self)
+        from . import models_text
+        models_text.register(self)
 
     def reg(self, *keys):
         def deco(f):
@@ -370,9 +372,23 @@ class Models:
             if key not in cache:
                 cache[key] = ex.call_body(b, [])
             return cache[key]
+        am = re.match(r'^\{(alloc\d+): &', t)
+        if am:
+            # reference to a static: evaluate its initialiser body once per path
+            from . import mirparse
+            sname = mirparse.STATIC_ALLOCS.get(am.group(1))
+            b = self.prog.bodies.get(sname) if sname else None
+            if b is None:
+                raise Inconclusive('static behind %s' % t)
+            cache = ex.env.setdefault('statics', {})
+            if sname not in cache:
+                cache[sname] = Cell(ex.call_body(b, []), name='static ' + sname)
+            return Ref(cache[sname], ())
         sm = re.match(r'^(.*?) \{\{ (.*) \}\}$', t, re.S)
         if sm:
             # struct constant `Path {{ f: v, .. }}`
+            if re.sub(r'::<.*$', '', sm.group(1)).endswith('future::Pending') and hasattr(self, 'pending_future'):
+                return self.pending_future()          # `future::pending()` const-evaluated
             fl = self.prog.tables.struct_fields(sm.group(1))
             if not isinstance(fl, list):
                 raise Inconclusive('struct constant %r' % t)
@@ -398,6 +414,10 @@ class Models:
                     if x[0] == segs[-1] and x[1] == 0:
                         return Adt('::'.join(segs[:-1]), {}, i, None)
         if re.match(r'[A-Za-z_<{]', t) and '(' not in t.split('::')[-1] and ' ' not in t.split('::')[-1].split('<')[0]:
+            return FnItem(t)
+        # fn item with generic arguments that contain parentheses / spaces: `std::mem::drop::<Result<(), Canceled>>`
+        segs2 = [x for x in split_top(t, '::') if x]
+        if re.match(r'[A-Za-z_]', t) and len(segs2) >= 2 and segs2[-1].startswith('<') and re.fullmatch(r'[A-Za-z_]\w*', segs2[-2]) and segs2[-2][0].islower():
             return FnItem(t)
         raise Inconclusive('constant %r' % t)
 
@@ -537,6 +557,13 @@ def register_core(M):
             raise PathEnd('panic', 'unwrap on None')
         return M.payload(ex, o, fty=dty)
 
+    @reg('Result::unwrap', 'Result::expect')
+    def _(ex, info, a, dty):
+        o = ex.materialize(a[0])
+        if not ex.branch(M.discr(ex, o) == bv(0)):
+            raise PathEnd('panic', 'unwrap on Err')
+        return M.payload(ex, o, 0, 0, fty=dty)
+
     @reg('Option::as_ref', 'Option::as_mut')
     def _(ex, info, a, dty):
         cell, path = ex.deref(a[0])
@@ -591,7 +618,7 @@ def register_core(M):
         e = a[1] if info['method'] == 'ok_or' else ex.call_value(a[1], [])
         return Adt(dty, {(1, 0): e}, 1, None)
 
-    @reg('Option::iter')
+    @reg('Option::iter', 'Option::iter_mut')
     def _(ex, info, a, dty):
         o = ex.materialize(M.load(ex, a[0]))
         cell, path = ex.deref(a[0])
@@ -716,6 +743,8 @@ def register_core(M):
             return v
         if st in ('Vec', 'String', 'PathBuf'):
             return v          # &Vec<T> -> &[T]: same object
+        if st == 'LazyLock':
+            return M.force_lazy(ex, a[0])
         if st == 'MutexGuard':
             g = ex.materialize(M.load(ex, a[0]))
             return g.fields[(None, 0)]
